@@ -120,6 +120,12 @@ def _create_files(  # noqa: C901, PLR0912, PLR0913
                 # will be reported per file through on_error below
                 pass
 
+        failed: set[str] = set()
+
+        def _onerror(src_path, dest_path, exc, _failed=failed):
+            _failed.add(dest_path)
+            onerror(src_path, dest_path, exc)
+
         transfer(
             src_fs,
             list(src_paths),
@@ -128,7 +134,7 @@ def _create_files(  # noqa: C901, PLR0912, PLR0913
             callback=callback,
             batch_size=jobs,
             links=links,
-            on_error=onerror,
+            on_error=_onerror if onerror is not None else None,
         )
 
         _check_versioning(dest_paths, fs)
@@ -136,7 +142,9 @@ def _create_files(  # noqa: C901, PLR0912, PLR0913
         if state and isinstance(fs, LocalFileSystem):
             _infos: list[tuple[str, HashInfo, dict]] = []
             for entry, _, dest_path in args:
-                if not entry.hash_info:
+                # NOTE: whatever is at a path that could not be created is
+                # not the entry's data.
+                if not entry.hash_info or dest_path in failed:
                     continue
                 try:
                     _infos.append((dest_path, entry.hash_info, fs.info(dest_path)))
